@@ -51,13 +51,16 @@ ToFgAll(r, xs, s) ==
   IF xs = <<>> THEN r
   ELSE ToFgAll(IF s \in r.st.top[Head(xs)].pend THEN Then(r, LAMBDA X : ToFg(X, Head(xs), s)) ELSE r, Tail(xs), s)
 
-\* o = [ok, fresh]: ok = the reply was a success (the binding passes the observed code; the generator assumes success),
+\* o = [ok, denied, fresh]: ok = the reply was a success, denied = it was {ctrl 403} (the binding passes the observed code;
+\* the generator assumes success),
 \* fresh = the session named by a ConnectBg step was not connected (otherwise the step is a no-op)
 SeqStep(S, a, ev, o) ==
   LET r0 == ApplyEvs(Same(S), ev)
       ok == o.ok IN
   CASE a.a = "Sub" ->
-         IF ~ok THEN Run(r0)
+         IF ~ok THEN (IF o.denied /\ a.t \in Groups /\ S.top[a.t].ph = "off"
+                      THEN Run([r0 EXCEPT !.st.top[a.t] = FreshTop])   \* hub.join initialises the topic, registerSession refuses: it stays loaded, idle
+                      ELSE Run(r0))
          ELSE IF a.t = "me" THEN (IF a.s \in S.top[SessUser[a.s]].att THEN Run(r0) ELSE Run(Then(r0, LAMBDA X : Attach(X, a.s, SessUser[a.s]))))
          ELSE IF a.t \in Groups THEN (IF a.s \in S.top[a.t].att \/ ~r0.st.sub[a.t][SessUser[a.s]].live THEN Run(r0)
                                       ELSE Run(Then(r0, LAMBDA X : Attach(X, a.s, a.t))))
